@@ -159,6 +159,32 @@ func Extract() *fx.Group {
 		g.Bool(name+"SeekNegCheck", negCheck(seek))
 		g.Bool(name+"ReadClosedGuard", closedGuard(read))
 		g.Bool(name+"SeekClosedGuard", closedGuard(seek))
+		if name == "ext4" {
+			// File.Read passes over an extent that lies wholly before the offset reached: `if leftInExtent < 0 { continue }`
+			g.Bool("e4ReadSkipsNegative", negLeftContinue(read))
+		}
 	}
 	return g
+}
+
+// negLeftContinue: the function holds an `if leftInExtent < 0` (or `<= -1`) whose body is a `continue`.
+func negLeftContinue(fn *ast.FuncDecl) bool {
+	found := false
+	ast.Inspect(fn.Body, func(n ast.Node) bool {
+		is, ok := n.(*ast.IfStmt)
+		if !ok || is.Init != nil {
+			return true
+		}
+		be, ok := is.Cond.(*ast.BinaryExpr)
+		if !ok || be.Op != token.LSS || !isIdent(be.X, "leftInExtent") || fx.Src(be.Y) != "0" {
+			return true
+		}
+		for _, st := range is.Body.List {
+			if br, ok := st.(*ast.BranchStmt); ok && br.Tok == token.CONTINUE {
+				found = true
+			}
+		}
+		return true
+	})
+	return found
 }
